@@ -126,12 +126,15 @@ pub fn tsval_gen() -> u32 {
     SIM_MS.with(|c| c.get())
 }
 
-/// Watchdog slots: each worker publishes the wall-clock ms at which it entered a library call.
+/// Watchdog slots: each worker publishes a stamp that is unique to the library call it is in (0 = not in a call).
+/// The watchdog counts its own 500 ms ticks during which a slot keeps showing the same stamp - no wall clock is
+/// compared, so a clock step or a pause of the whole machine (a snapshot of the VM, say) is not taken for a hang.
 pub static WATCH: [AtomicI64; 64] = [const { AtomicI64::new(0) }; 64];
 pub static WATCH_RUN: [AtomicU64; 64] = [const { AtomicU64::new(0) }; 64];
 pub static WATCH_IDX: [AtomicU64; 64] = [const { AtomicU64::new(0) }; 64];
 thread_local! {
     pub static WORKER: std::cell::Cell<usize> = const { std::cell::Cell::new(63) };
+    static CALL_NO: std::cell::Cell<i64> = const { std::cell::Cell::new(0) };
 }
 pub fn wall_ms() -> i64 {
     use std::time::{SystemTime, UNIX_EPOCH};
@@ -141,7 +144,12 @@ pub fn wall_ms() -> i64 {
 /// Run a call into the library: catches unwinding, feeds the watchdog.
 pub fn guard<R>(what: &'static str, f: impl FnOnce() -> R) -> Result<R, Violation> {
     let w = WORKER.with(|c| c.get());
-    WATCH[w].store(wall_ms(), Ordering::Relaxed);
+    let stamp = CALL_NO.with(|c| {
+        let n = c.get().wrapping_add(1).max(1);
+        c.set(n);
+        n
+    });
+    WATCH[w].store(stamp, Ordering::Relaxed);
     let was = IN_GUARD.with(|g| g.replace(true));
     let r = catch_unwind(AssertUnwindSafe(f));
     IN_GUARD.with(|g| g.set(was));
